@@ -283,7 +283,7 @@ func runDecodex(ctx *core.Ctx, tier string) {
 			{`"` + k + `"`, `"\u00` + fmt.Sprintf("%02x", k[0]) + k[1:] + `"`}} {
 			texts["["+strings.Replace(bt, sp[0], sp[1], -1)+"]"] = true
 		}
-		for _, ws := range []string{"\f", "\v", "\xc2\xa0", "\x00"} {
+		for _, ws := range []string{"\f", "\v", "\xc2\xa0", "\x00", "\xef\xbb\xbf", "\xfe\xff", "\xff\xfe", "\xe2\x80\x8b", "\xe2\x80\xa8"} {
 			texts[ws+"["+bt+"]"] = true
 			texts["["+bt+"]"+ws] = true
 		}
